@@ -6,6 +6,7 @@ PROP = "C12"
 LEVEL = "exploration"
 SHARDS = {"quick": 8, "thorough": 16}
 TIMEOUT = {"quick": 900, "thorough": 7200}
+THOROUGH_MULT = 4   # thorough budgets below are multiplied by this (sized for roughly five minutes on 16 cores)
 REQUIRED = {"output": 700, "reject": 150, "bip85_data": 8}
 ANCHORS = ['bip85:BIP85DeterministicEntropy.entropy', 'bip85:BIP85DeterministicEntropy.bip39_mnemonic', 'bip85:BIP85DeterministicEntropy.wif', 'bip85:BIP85DeterministicEntropy.xprv', 'bip85:BIP85DeterministicEntropy.hex', 'bip85:BIP85DeterministicEntropy.pwd', 'paper_wallet:PaperWallet.bip85_data', 'wallet_utils:Bip32Path.convert_hardened']
 RULE = ("masters: random + boundary scalars; ALL 5 word counts, ALL 49 byte counts 16..64, ALL 67 password lengths 20..86 "
